@@ -285,7 +285,15 @@ pub fn gen_trace(rng: &mut Rng, idx: usize) -> Case {
     // directed: case 0 = every message of the step contains the END marker (finding F-C20b),
     // case 1 = messages containing `__unknown` / `__` in the middle (F-C20a, fixed)
     let mode = match idx { 0 => "d0", 1 => "d1", _ => "rand" };
-    let out = std::process::Command::new(exe).args(["--tracing-child", &seed.to_string(), mode]).output().expect("spawn child");
+    // (the binary may be replaced by a concurrent `cargo build` of another check: retry a missing exe)
+    let mut out = None;
+    for _ in 0..100 {
+        match std::process::Command::new(&exe).args(["--tracing-child", &seed.to_string(), mode]).output() {
+            Ok(o) => { out = Some(o); break; }
+            Err(_) => std::thread::sleep(std::time::Duration::from_millis(100)),
+        }
+    }
+    let out = out.expect("spawn child");
     let stdout = String::from_utf8_lossy(&out.stdout);
     let line = stdout.lines().find(|l| l.starts_with("mon.c20 ")).map(str::to_owned);
     match line {
